@@ -525,11 +525,20 @@ def observe(formula, env=None, want_tokens=True):
         except Exception:   # noqa
             pass
     if env is not None:
+        import signal
+
+        def _alarm(*_):
+            raise TimeoutError('evaluation exceeded 20 s')
+        old = signal.signal(signal.SIGALRM, _alarm)
+        signal.alarm(20)
         try:
             cells = {a: _py_cell(v) for a, v in env.items()}
             out['val'] = core.enc(pyc.eval_formula(formula, cells))
         except Exception as exc:   # noqa
             out['val'] = core.canon_exc(exc)
+        finally:
+            signal.alarm(0)
+            signal.signal(signal.SIGALRM, old)
     return out
 
 
@@ -873,6 +882,12 @@ def random_tree(rng, depth, leafs=None):
             args[rng.randrange(n)] = ['Z']
         return ['F', name, args]
     op = rng.choice(['pow', 'pow', 'mul', 'div', 'add', 'sub', 'concat', 'eq', 'lt', 'gt', 'le', 'ge', 'ne'])
+    if op == 'pow':
+        # keep exponents small: Python's int ** int on a tower such as 10^(10^(5^4)) does not terminate in practice
+        r = rng.choice([['N', rng.choice(['0', '1', '2', '3', '0.5'])], ['U', ['N', rng.choice(['1', '2'])]],
+                        ['R', rng.choice(['A1', 'B2', 'C3'])], ['%', ['N', '50']],
+                        ['B', 'add', ['N', '1'], ['N', '1']]])
+        return ['B', op, random_tree(rng, depth - 1), r]
     return ['B', op, random_tree(rng, depth - 1), random_tree(rng, depth - 1)]
 
 
